@@ -90,9 +90,15 @@ def validate(ck, pid, scns, props, nproc=None, extra_ok=()):
         elif "err" in o:
             ck.count("not_converged")
         else:
+            # an exception out of run_sim means "this step could not be solved" (C16 decides whether it was signalled
+            # properly); it is not a statement about the reported rows, so the other properties only count it -
+            # except errors that are plainly not solver failures (KeyError, AttributeError, TypeError ...)
             ck.count("raised")
-            ck.violation(pid + ".run_failed", "%s :: %s" % (" ".join(sorted(netgen.features_of(s))), o["exc"]),
-                         {"scn": s, "exc": o["exc"]})
+            if not o["exc"].startswith(("RuntimeError", "record:")) and not o["exc"].startswith("ValueError"):
+                ck.violation(pid + ".run_failed", "%s :: %s" % (" ".join(sorted(netgen.features_of(s))), o["exc"]),
+                             {"scn": s, "exc": o["exc"]})
+            elif o["exc"].startswith("record:"):
+                raise common.MachineryError("recording failed: " + o["exc"])
     traces = [simnet.encode_trace(s, rows, props) for s, rows in good]
     verdicts = common.run_cases("ObsTrace", traces, check=ck, nproc=nproc)
     handle(ck, pid, good, verdicts)
